@@ -81,6 +81,27 @@ def size_case(run, specs, transform):
     return ok
 
 
+def representation_cases(run):
+    """points, nuclear coordinates, charges and density matrix passed as other kinds of ndarray"""
+    from gbasis.evals.electrostatic_potential import electrostatic_potential
+    rng = run.rng
+    cs = []
+    specs = [rand_shell(rng, l, cs, nprim=1 + l, nseg=1, exp_hi=5.0) for l in (0, 1)]
+    basis = make_basis(specs)
+    n = sum(s.size for s in specs)
+    pts = np.array([[0.0, 1.0, -1.0], [2.0, 0.0, 1.0]])
+    g = np.eye(n) * 2.0
+    g[0, n - 1] = g[n - 1, 0] = 1.0
+    rep = {"basis": core.describe_basis(specs), "points": pts.tolist(), "gamma": g.tolist()}
+    npos = np.array([[1.0, 0.0, 0.0], [0.0, -1.0, 2.0]])
+    Z = np.array([3.0, -2.0])
+    for thr in (0.0, 2.0):
+        repr_case(run, f"electrostatic_potential(threshold={thr})", "points", lambda p: electrostatic_potential(basis, g, p, npos, Z, threshold_dist=thr), pts, rep)
+        repr_case(run, f"electrostatic_potential(threshold={thr})", "nuclear_coords", lambda c: electrostatic_potential(basis, g, pts, c, Z, threshold_dist=thr), npos, rep)
+    repr_case(run, "electrostatic_potential", "nuclear_charges", lambda z: electrostatic_potential(basis, g, pts, npos, z), Z, rep)
+    repr_case(run, "electrostatic_potential", "one_density_matrix", lambda d: electrostatic_potential(basis, d, pts, npos, Z), g, rep)
+
+
 def check(run):
     rng = run.rng
     quick = run.tier == "quick"
@@ -140,6 +161,7 @@ def check(run):
         one_case(run, specs, gamma, pts, npos, Z, 0.0, None, "types-%s-%s" % ("sph" if ta else "cart", "sph" if tb else "cart"))
         size_case(run, specs, None)
         run.count("coordinate types " + ("mixed" if ta != tb else ("spherical" if ta else "cartesian")) + " generalized")
+    representation_cases(run)
     # the witnesses of the repaired defects
     s = ShellSpec(0, [0, 0, 0], [1.0], [1.0])
     one_case(run, [s], np.array([[1.0]]), np.array([[0.0, 0.0, 1.5]]), np.array([[0.0, 0.0, 0.0]]), np.array([2.0]), 1.0, None, "Z=2,d=1.5,t=1")
@@ -150,7 +172,9 @@ def replay(run, rep):
     n0 = len(run.violations)
     specs = specs_from(rep)
     t = None if rep.get("transform") is None else np.array(rep["transform"])
-    if rep["case"] == "size":
+    if rep["case"] == "representation":
+        representation_cases(run)
+    elif rep["case"] == "size":
         size_case(run, specs, t)
     else:
         one_case(run, specs, np.array(rep["gamma"]), np.array(rep["points"]), np.array(rep["nuclei"]), np.array(rep["charges"]),
